@@ -157,6 +157,23 @@ def main():
                 vjobs.append((vp, dict(opts_base, **(vp.get("opts") or {}))))
         for (plan, _), res in engine.run_jobs(vjobs):
             absorb(plan, res)
+    # a run that failed in the harness (typically a wall-clock timeout while the machine is overloaded) is executed once
+    # more, alone, after the batch: the execution is a pure function of the plan, so a genuine hang hangs again and is
+    # reported (with its plan saved for replay); a stall of the host does not repeat
+    if harness:
+        again, harness[:] = list(harness), []
+        for n, (plan, msg) in enumerate(again):
+            p2 = {k: v for k, v in plan.items() if k not in ("id", "root")}
+            res = engine.execute((p2, dict(opts_base, **(plan.get("opts") or {}), want_io=[plan["enumerate_life"]] if "enumerate_life" in plan else None)))
+            if res["harness"]:
+                os.makedirs(os.path.join(engine.VERIF, "replays"), exist_ok=True)
+                path = os.path.join(engine.VERIF, "replays", f"{prop}-{seed}-harness-{n}.json")
+                json.dump(p2, open(path, "w"))
+                harness.append((plan, f"{res['harness']} (twice; plan saved as {path})"))
+            else:
+                evaluations -= 1
+                absorb(plan, res)
+                stats["harness_retried_ok"] += 1
     wall = time.time() - t0
 
     # ---- report
